@@ -51,8 +51,9 @@ class VNone(V):
 
 
 class VTuple(V):
-    def __init__(self, items):
+    def __init__(self, items, is_list=False):
         self.items = list(items)
+        self.is_list = is_list       # a list whose length is known statically (literal tables)
 
     def __repr__(self):
         return f"VTuple({self.items})"
@@ -178,6 +179,8 @@ def box(v):
     if isinstance(v, VNone):
         return Val.VN
     if isinstance(v, VTuple):
+        if getattr(v, "src", None) is not None:
+            return v.src
         return Val.VT(mk_vsq([box(x) for x in v.items]))
     if isinstance(v, VList):
         return Val.VT(v.t) if v.kind == "tuple" else Val.VL(v.t)
@@ -186,10 +189,14 @@ def box(v):
     if isinstance(v, VConst):
         return Val.VO(z3.IntVal(const_id(v.py)))
     if isinstance(v, VRecord):
+        if getattr(v, "src", None) is not None:
+            return v.src            # the record was obtained by unboxing this very term
         fields, _ = RECORDS[v.cls]
         return Val.VT(mk_vsq([box(v.fields[f]) for f in fields]))
     if isinstance(v, VOpt):
         return z3.If(v.isnone, Val.VN, box(v.value))
+    if isinstance(v, VRef):
+        return Val.VO(z3.IntVal(const_id(("ref", v.ident))))
     raise Unsupported(f"cannot box {v!r}")
 
 
@@ -217,14 +224,18 @@ def unbox(t, ty):
     if ty == "any":
         return VAny(t)
     if isinstance(ty, tuple) and ty[0] == "tuple":
-        return VTuple([unbox(VS.at(Val.tval(t), z3.IntVal(k)), et) for k, et in enumerate(ty[1:])])
+        r = VTuple([unbox(VS.at(Val.tval(t), z3.IntVal(k)), et) for k, et in enumerate(ty[1:])])
+        r.src = t
+        return r
     if isinstance(ty, tuple) and ty[0] == "list":
         return VList(Val.lval(t), ty[1])
     if isinstance(ty, tuple) and ty[0] == "tuplelist":
         return VList(Val.tval(t), ty[1], kind="tuple")
     if isinstance(ty, tuple) and ty[0] == "record":
         fields, _ = RECORDS[ty[1]]
-        return VRecord(ty[1], {f: unbox(VS.at(Val.tval(t), z3.IntVal(k)), fty) for k, (f, fty) in enumerate(fields.items())})
+        r = VRecord(ty[1], {f: unbox(VS.at(Val.tval(t), z3.IntVal(k)), fty) for k, (f, fty) in enumerate(fields.items())})
+        r.src = t
+        return r
     if isinstance(ty, tuple) and ty[0] == "opt":
         return VAny(t)
     raise Unsupported(f"cannot unbox to {ty!r}")
